@@ -43,8 +43,8 @@ PROPOSED_KNOWN = [
 
 BOUNDS = {
     #                 xor deltas per byte       random paths  searched leading-zero parents (1 byte / 2 bytes)
-    'quick':    dict(deltas='{1, 128, 255}',    extra=250,    lz=6,  lz2=0, par=4, workers=4),
-    'thorough': dict(deltas='<- AllDeltas',     extra=4000,   lz=40, lz2=2, par=5, workers=3),
+    'quick':    dict(deltas='{1, 128, 255}',    extra=500,    lz=8,  lz2=0, par=4, workers=4),
+    'thorough': dict(deltas='<- AllDeltas',     extra=15000,  lz=100, lz2=3, par=5, workers=3),
 }
 CHUNK = 1500
 
@@ -149,9 +149,8 @@ def binding_demo(scratch, pool, known, rnd, workers):
         return 'last byte of the recorded private key accessor flipped'
 
     def m_str(l):
-        s = l['impl']['obs']['str']
-        l['impl']['obs']['str'] = s[:-1] + ('2' if s[-1] != '2' else '3')
-        return 'last character of the recorded serialisation changed'
+        l['impl']['obs']['str'] = l['impl']['pub']['str']
+        return 'recorded serialisation of the child replaced by that of its public twin'
 
     def m_fp(l):
         l['impl']['obs']['fp'][0] ^= 0x80
@@ -225,12 +224,15 @@ def check(pid, tier, scratch, replay):
         raise Infra('the seeded search found no parent with a leading zero byte (%d seeds tried)' % rec['leading_zero_seeds_tried'])
 
     # ---- TLC judges every chunk (several TLC processes side by side)
-    chunks = [open(f).read() for f in rec['files']]
+    chunks = list(rec['files'])
+
+    def judge_file(path, what):
+        return judge(scratch, open(path).read(), set(known), what, b['workers'])
     states = gen_r.get('distinct', 0)
     transitions = gen_r.get('generated', 0)
     results = [None] * len(chunks)
     with concurrent.futures.ThreadPoolExecutor(max_workers=b['par']) as ex:
-        futs = {ex.submit(judge, scratch, c, set(known), 'trace chunk %d' % i, b['workers']): i for i, c in enumerate(chunks)}
+        futs = {ex.submit(judge_file, c, 'trace chunk %d' % i): i for i, c in enumerate(chunks)}
         for f in concurrent.futures.as_completed(futs):
             results[futs[f]] = f.result()
 
@@ -241,7 +243,7 @@ def check(pid, tier, scratch, replay):
     samples, sampled = [], set()
     tlc_flagged = 0
     for ci, (r, verdicts) in enumerate(results):
-        lines = chunks[ci].splitlines()
+        lines = open(chunks[ci]).read().splitlines()
         if len(verdicts) != len(lines) or r.get('distinct') != len(lines):
             raise Infra('trace chunk %d: %d lines, %d verdicts, %s states' % (ci, len(lines), len(verdicts), r.get('distinct')))
         states += r.get('distinct', 0)
@@ -274,7 +276,7 @@ def check(pid, tier, scratch, replay):
 
     # ---- binding demonstration on lines TLC has just judged conforming
     pool = []
-    for i, raw in enumerate(chunks[0].splitlines(), 1):
+    for i, raw in enumerate(open(chunks[0]).read().splitlines(), 1):
         if results[0][1][i][0] == 'ok' and '"op":"child"' in raw and '"parent":"xprv' in raw:
             l = json.loads(raw)
             if l['impl']['ok'] and l['impl']['pub']['ok']:
